@@ -16,11 +16,12 @@
      prunlink <i> <i:g> | pcleanlink <i> <i:g>
                                      the file system mutations a handler completed before the manager was
                                      killed in it (harness op `crash`), always followed by `restart`;
-                                     driver-level state updates, not constructors of `Op`
+                                     `TmVerif.AppCfg.pstep` (AppCfg/CrashModel.lean; theorems in AppCfg/Crash.lean), not constructors of `Op`
    output: the whole state, canonically sorted (or bad-op / bad-gen / bad-order).
 -/
 import TmVerif.Base.Proto
 import TmVerif.AppCfg.Model
+import TmVerif.AppCfg.CrashModel
 open TmVerif TmVerif.Proto TmVerif.AppCfg
 
 def parseCId (s : String) : Option CId :=
@@ -127,39 +128,31 @@ def stepLine (s : St) (ws : List String) : St × String :=
   -- mutations it completed, one line each; driver-level only (not part of `Op`)
   | ["pmkapp", c] =>
     match parseCId c with
-    | some c =>
-      let s' := { s with apps := if hasCont c s.apps then s.apps else s.apps ++ [{ id := c }] }
-      (s', showState s')
+    | some c => let s' := pstep s (.mkapp c); (s', showState s')
     | none => (s, "bad-op")
   | ["prmapp", c] =>
     match parseCId c with
-    | some c => let s' := { s with apps := s.apps.filter (fun x => decide (x.id ≠ c)) }; (s', showState s')
+    | some c => let s' := pstep s (.rmapp c); (s', showState s')
     | none => (s, "bad-op")
   | ["pmark", c, "terminated"] =>
     match parseCId c with
-    | some c =>
-      let s' := { s with apps := updCont c (fun x => { x with terminated := true }) s.apps }
-      (s', showState s')
+    | some c => let s' := pstep s (.mark c); (s', showState s')
     | none => (s, "bad-op")
   | ["pcacherm", i] =>
     match i.toNat? with
-    | some i => let s' := fsDelete s i; (s', showState s')
+    | some i => let s' := pstep s (.cacherm i); (s', showState s')
     | none => (s, "bad-op")
   | ["ptermmv", i] =>
     match i.toNat? with
-    | some i =>
-      let s' := match alookup i s.running with
-        | some c => { s with running := aerase i s.running, cleanup := ainsert (.cont c) c s.cleanup }
-        | none => s
-      (s', showState s')
+    | some i => let s' := pstep s (.termmv i); (s', showState s')
     | none => (s, "bad-op")
   | ["prunlink", i, c] =>
     match i.toNat?, parseCId c with
-    | some i, some c => let s' := { s with running := ainsert i c s.running }; (s', showState s')
+    | some i, some c => let s' := pstep s (.runlink i c); (s', showState s')
     | _, _ => (s, "bad-op")
   | ["pcleanlink", i, c] =>
     match i.toNat?, parseCId c with
-    | some i, some c => let s' := addCleanup s i c; (s', showState s')
+    | some i, some c => let s' := pstep s (.cleanlink i c); (s', showState s')
     | _, _ => (s, "bad-op")
   | ["restart"] => let s' := restart s; (s', showState s')
   | ["wipe"] => let s' := wipe s; (s', showState s')
